@@ -281,3 +281,49 @@ def comparator_spec(F):
         else:
             out.append({"kind": "other", "text": c.text(), "sign": sign, "node": ifs})
     return out
+
+
+def printf_specs(fmt):
+    """[(text before the spec since the previous one, conversion char, index of the value argument
+    among the variadic arguments)] for a printf-style format string"""
+    import re
+    out = []
+    argi = 0
+    last = 0
+    for m in re.finditer(r"%([-+ #0]*)(\*|\d+)?(?:\.(\*|\d+))?(hh|h|ll|l|L|z|j|t)?([diouxXeEfFgGaAcspn%])", fmt):
+        if m.group(5) == "%":
+            continue
+        if m.group(2) == "*":
+            argi += 1
+        if m.group(3) == "*":
+            argi += 1
+        out.append((fmt[last:m.start()], m.group(5), argi))
+        argi += 1
+        last = m.end()
+    return out
+
+
+def reaching_sources(F, use, depth=0):
+    """Set of source-expression texts a value use resolves to, following local variables through their
+    reaching definitions (CFG-based) up to 3 levels.  A non-local / non-variable expression is its own source."""
+    u = use.strip(casts=True)
+    if u.k != "DeclRefExpr" or u.d.get("dk") != "Var" or u.d.get("g") or depth > 3:
+        return {u.text()}
+    did = u.d["did"]
+    defs = local_defs(F, did)
+    cfg = F.cfg
+    upos = cfg.position(use)
+    out = set()
+    dpos = [(rhs, node, cfg.position(node)) for rhs, node in defs]
+    for rhs, node, pos in dpos:
+        if pos is None or upos is None:
+            continue
+        others = [p for r2, n2, p in dpos if n2 is not node and p is not None]
+        if cfg.reaches(pos, upos, avoid=others):
+            if rhs is None:
+                out.add("<modified:%s>" % u.text())
+            else:
+                out |= reaching_sources(F, rhs, depth + 1)
+    if not out:
+        out.add("<undefined:%s>" % u.text())
+    return out
